@@ -314,3 +314,100 @@ func init() {
 		}
 	})
 }
+
+// c35pid (E-enum): the advisory pid file ("LOCK", documented as not part of the locking
+// mechanism) disappears while a read-write handle is open — an environment deviation.  Close may
+// report the failed removal, but it must still give the directory lock up: the next Open (same
+// process or the helper process, read-write or read-only) succeeds.  The first *DB stays reachable
+// so that no finalizer closes a leaked descriptor behind the harness's back.
+var c35Keep []*DB
+
+func init() {
+	registerEnum("c35pid", func(e *enumCtx) {
+		root := filepath.Join(e.j.Scratch, "c35pid")
+		var helper *c35Helper
+		defer func() {
+			if helper != nil {
+				helper.stop()
+			}
+		}()
+		n := 0
+		for _, layout := range []string{"shared", "separate"} {
+			for _, removed := range []string{"dir", "valuedir", "both", "none"} {
+				if layout == "shared" && (removed == "valuedir" || removed == "both") {
+					continue
+				}
+				for _, opener := range []string{"B", "C"} {
+					for _, kind := range []string{"rw", "ro"} {
+						layout, removed, opener, kind := layout, removed, opener, kind
+						e.do(fmt.Sprintf("%s/rm-%s/%s%s", layout, removed, opener, kind), func() (string, string) {
+							if helper == nil {
+								var err error
+								if helper, err = c35StartHelper(); err != nil {
+									return "c35-helper", err.Error()
+								}
+							}
+							n++
+							dir := filepath.Join(root, fmt.Sprint(n), "X")
+							vdir := dir
+							if layout == "separate" {
+								vdir = filepath.Join(root, fmt.Sprint(n), "Y")
+							}
+							defer os.RemoveAll(filepath.Join(root, fmt.Sprint(n)))
+							a, err := Open(c35Opts(dir, vdir, false))
+							if err != nil {
+								return "c35-init", err.Error()
+							}
+							c35Keep = append(c35Keep, a)
+							if err := a.Update(func(txn *Txn) error { return txn.Set([]byte("k"), []byte("v")) }); err != nil {
+								return "c35-init", err.Error()
+							}
+							if removed == "dir" || removed == "both" {
+								if err := os.Remove(filepath.Join(dir, lockFile)); err != nil {
+									return "c35-init", err.Error()
+								}
+							}
+							if removed == "valuedir" || removed == "both" {
+								if err := os.Remove(filepath.Join(vdir, lockFile)); err != nil {
+									return "c35-init", err.Error()
+								}
+							}
+							closeErr := a.Close()
+							if removed == "none" && closeErr != nil {
+								return "lock-close", "Close: " + closeErr.Error()
+							}
+							if opener == "C" {
+								resp, err := helper.call(fmt.Sprintf("%s %s %s", kind, dir, vdir))
+								if err != nil {
+									return "c35-helper", err.Error()
+								}
+								if resp != "ok" {
+									return "lock-not-released", fmt.Sprintf("pid file of %s removed while the database was open; Close returned %v; a %s Open by another process then fails: %s", removed, closeErr, kind, resp)
+								}
+								_, _ = helper.call("close")
+								return "", ""
+							}
+							b, err := Open(c35Opts(dir, vdir, kind == "ro"))
+							if err != nil {
+								return "lock-not-released", fmt.Sprintf("pid file of %s removed while the database was open; Close returned %v; a %s Open in the same process then fails: %v", removed, closeErr, kind, err)
+							}
+							got := ""
+							_ = b.View(func(txn *Txn) error {
+								if it, err := txn.Get([]byte("k")); err == nil {
+									v, _ := it.ValueCopy(nil)
+									got = string(v)
+								}
+								return nil
+							})
+							_ = b.Close()
+							if got != "v" {
+								return "lost-after-close", fmt.Sprintf("key written before Close reads %q after re-open", got)
+							}
+							return "", ""
+						})
+					}
+				}
+			}
+		}
+	})
+}
